@@ -318,7 +318,15 @@ pub fn header_parser(i: &[u8]) -> IResult<&[u8], (BlockType, Headers, bool)> {
     let (i, (typ, headers)) = armor_header(i)?;
 
     // "A blank (zero length or containing only whitespace) line"
-    let (i, _) = pair(space0, line_ending).parse(i)?;
+    let (i, _) = match pair(space0, line_ending).parse(i) {
+        Ok(res) => res,
+        // The header lines are parsed with `complete`, so a header line that is only partially
+        // available ends up here. A line can only be judged once it is complete, ask for more data.
+        Err(nom::Err::Error(_)) if !i.contains(&b'\n') => {
+            return Err(nom::Err::Incomplete(nom::Needed::Unknown));
+        }
+        Err(err) => return Err(err),
+    };
 
     Ok((i, (typ, headers, has_leading_data)))
 }
